@@ -394,4 +394,45 @@ theorem processPacket_emit (cfg : Cfg) (scope : Scope) (headroom : Nat) (o : Off
             · exact h
         · cases h
 
+/-! ### STUN branch -/
+
+theorem slice?_some (b : Bytes) (i j : Nat) (h : i ≤ j ∧ j ≤ b.length) :
+    ∃ s, slice? b i j = some s ∧ s.length = j - i := by
+  unfold slice?
+  rw [if_pos h]
+  refine ⟨_, rfl, ?_⟩
+  rw [List.length_take, List.length_drop]; omega
+
+theorem stunAttrs_no_panic : ∀ fuel b last, stunAttrs fuel b last ≠ none := by
+  intro fuel
+  induction fuel with
+  | zero => intro b last h; simp [stunAttrs] at h
+  | succ n ih =>
+    intro b last h
+    unfold stunAttrs at h
+    split at h
+    · cases h
+    · split at h
+      · cases h
+      · rename_i h0 h4
+        obtain ⟨ty, hty, _⟩ := slice?_some b 0 2 (by omega)
+        obtain ⟨ln, hln, _⟩ := slice?_some b 2 4 (by omega)
+        obtain ⟨b', hb', hb'l⟩ := slice?_some b 4 b.length (by omega)
+        rw [hty, hln] at h
+        dsimp only at h
+        rw [hb'] at h
+        dsimp only at h
+        split at h
+        · cases h
+        · rename_i hpad
+          obtain ⟨a, ha, _⟩ := slice?_some b' 0 (beNat ln) (by omega)
+          obtain ⟨rest, hrest, _⟩ := slice?_some b' ((beNat ln + 3) / 4 * 4) b'.length (by omega)
+          rw [ha, hrest] at h
+          exact ih _ _ h
+
+theorem stunIs_len (b : Bytes) (h : stunIs b = true) : 20 ≤ b.length := by
+  unfold stunIs stunHeaderLen at h
+  simp at h
+  omega
+
 end Scion.Scmp
